@@ -1105,10 +1105,19 @@ def hash_cover(ctx, facts, rule="HASH-cover"):
         ok = r == ("proj", ("call", H + "compute_hash_internal", (("arg", 1),)), 0)
         ctx.ob(rule, f"{name}:forwards-whole-input", ok, "compute_hash_internal(input).0" if ok else "the wrapper does not return the hash of its whole argument", site_of(w))
         if need_assert:
-            pan = [bb for bb, t in w.calls() if re.search(r"panicking::panic", F.callee(t)[0] or "")]
+            dbg = flow.debug_only_blocks(w)
+            pan = [bb for bb, t in w.calls() if re.search(r"panicking::panic", F.callee(t)[0] or "") and bb not in dbg]     # a debug_assert! is not there in the shipped build
             g = [f for tgt, f in flow.edge_guards(w) if f[1] is not None and "compute_hash_internal" in str(f[1])]
             oka = bool(pan) and bool(g)
             ctx.ob(rule, "compute_hash:refuses-empty-input", oka, "an empty input panics (no fail-open hash of nothing)" if oka else "compute_hash no longer refuses an empty input: a check that hashes an empty table passes trivially", site_of(w))
+    # who may hash "possibly nothing": only the shuffle's tag hash, whose table may legitimately be empty on a shard
+    for p, ub in sorted(facts.bodies.items()):
+        if facts.is_test_path(p) or not ub.file.startswith("ipa-core/") or p.startswith(H):
+            continue
+        if any((F.callee(t)[0] or "").endswith("hashing::compute_possibly_empty_hash") or (F.callee(t)[0] or "").endswith("hashing::compute_hash_internal") for bb, t in ub.calls()):
+            ctx.count(bodies=1)
+            ok = p.startswith("protocol::ipa_prf::shuffle::malicious::compute_and_hash_tags")
+            ctx.ob(rule, f"possibly-empty-hash@{p.split('::{closure')[0][-80:]}", ok, "the shuffle's tag hash may cover an empty table (a shard without rows)" if ok else "a hash that accepts an empty input is used outside the shuffle's tag hash: a proof / share check over nothing passes trivially", site_of(ub))
     h2f = facts.bodies.get(H + "hash_to_field")
     if h2f is None:
         return ctx.missing(rule, "hash_to_field")
